@@ -369,7 +369,42 @@ def header_methods(dim):
     return ms
 
 
-METHODS = {m.name: m for m in methods_3d() + header_methods(3)}
+def irregular_methods():
+    """Trace / header ordinals on an irregular 3D file: ordinal i is the i-th populated grid position (T.present)."""
+    ms = []
+
+    def grid_of(T, k):
+        from shims.lazyarr import _pick
+        return _pick(T.present, k)
+
+    def tr_denote(T, a):
+        k = py_wrap(a[0], len(T.present))
+        if k is None:
+            return None
+        g = grid_of(T, k)
+        il, xl = g // T.dims[1], g % T.dims[1]
+        return ((T.dims[2],), lambda q: (il, xl, q[0]))
+    ms.append(M('get_trace_irregular', ['index'], lambda r, a: r.get_trace(a[0]),
+                lambda T, a: b_and(a[0] >= 0, a[0] < len(T.present)), tr_denote, needs=['nil', 'nxl']))
+
+    def verify_header(E, T, a, res, label):
+        import segyio
+        g = grid_of(T, a[0])
+        for f in sorted(T.stored):
+            v = res[segyio.tracefield.TraceField(f)]
+            if f in T.footer_arrays:
+                E.check((not isinstance(v, tuple)) and implied(v == T.footer_arrays[f].get((g,))), label + ': header i is that of the i-th populated grid position')
+            else:
+                expect_header_value(E, T, v, sorted(T.stored).index(f), g, label + ': stored field of the i-th populated position')
+    m = M('gen_trace_header_irregular', ['index'], lambda r, a: r.gen_trace_header(a[0]),
+          lambda T, a: b_and(a[0] >= 0, a[0] < len(T.present)), None, kind='header', needs=['nil', 'nxl'])
+    m.verify = verify_header
+    m.ntr = lambda T: len(T.present)
+    ms.append(m)
+    return ms
+
+
+METHODS = {m.name: m for m in methods_3d() + header_methods(3) + irregular_methods()}
 METHODS_2D = {m.name: m for m in methods_2d() + [m for m in header_methods(2)]}
 for _m in list(METHODS_2D.values()):
     if _m.kind == 'header' and not _m.name.endswith('_2d'):
@@ -438,7 +473,7 @@ def run_method(E, m, T, r, mode, after_call=None, args=None, excused=None):
         return
     if m.kind == 'header':
         if m.argn:
-            k = py_wrap(a[0], T.n_traces)      # a negative ordinal, where accepted, denotes trace n + index
+            k = py_wrap(a[0], m.ntr(T) if hasattr(m, 'ntr') else T.n_traces)      # a negative ordinal, where accepted, denotes trace n + index
             if k is None:
                 E.check(False, label + ': returned although the arguments denote no real item')
                 return
@@ -514,6 +549,20 @@ def item_fn(method, bs, rate, nb, mode, opts=None):
                 T.dims = (int(T.dims[0]), T.dims[1], T.dims[2])
             if 'nxl' in m.needs:
                 T.dims = (T.dims[0], int(T.dims[1]), T.dims[2])
+            if opts.get('holes'):
+                # irregular file: the stored inline / crossline number arrays are concrete, zeros at the holes (chosen by the solver)
+                n_grid = T.dims[0] * T.dims[1]
+                hs = []
+                for j in range(opts['holes']):
+                    hs.append(int(E.fresh('hole%d' % j, 0 if not hs else hs[-1] + 1, n_grid - 1)))
+                T.present = [g for g in range(n_grid) if g not in hs]
+                nx = T.dims[1]
+                T.footer_arrays = {
+                    189: LazyArr((n_grid,), (lambda idx, hs=tuple(hs), nx=nx: 0 if int(idx[0]) in hs else 10 + 2 * (int(idx[0]) // nx)) if True else None, 'num', 'i4'),
+                    193: LazyArr((n_grid,), (lambda idx, hs=tuple(hs), nx=nx: 0 if int(idx[0]) in hs else 20 + 3 * (int(idx[0]) % nx)), 'num', 'i4')}
+                T.tracecount = len(T.present)
+                T.fields['tracecount'] = T.tracecount
+                T.header[68:72] = pack_field('<I', T.tracecount)
         st = make_store(T)
         if opts.get('truncate'):
             # the file is cut at an arbitrary byte length (C18): reads beyond the cut come back short / empty
